@@ -19,10 +19,11 @@ where
   }
   pub fn execute(&self, source: Observable<'a, Item>) -> Observable<'a, Item> {
     let default = self.default.clone();
-    let emitted = Arc::new(RwLock::new(false));
 
     Observable::<Item>::create(move |s| {
       let default_complete = default.clone();
+      // whether *this* subscription has seen an item
+      let emitted = Arc::new(RwLock::new(false));
 
       let emitted_next = Arc::clone(&emitted);
       let emitted_complete = Arc::clone(&emitted);
